@@ -117,4 +117,143 @@ theorem decFrac_Q (D : ℕ) (E : ℤ) :
 theorem decFrac_den_pos (D : ℕ) (E : ℤ) : 0 < (decFrac D E).2 := by
   rw [decFrac_eq]; exact (tenFrac_pos E).2
 
+/-! ## totality: the fuel of `shortest` suffices -/
+
+theorem pick_ne_nil (c : List Nat) (dlo dhi d1 : Nat) :
+    (if (c.filter (fun d => dlo ≤ d ∧ d ≤ dhi)).isEmpty then (if d1 < dlo then [dlo] else [dhi])
+      else c.filter (fun d => dlo ≤ d ∧ d ≤ dhi)) ≠ [] := by
+  by_cases he : (c.filter (fun d => dlo ≤ d ∧ d ≤ dhi)).isEmpty = true
+  · rw [if_pos he]; split <;> simp
+  · rw [if_neg he]; intro h; rw [h] at he; simp at he
+
+theorem closestIn_ne_nil (iv : Interval) (E : Int) (dlo dhi : Nat) : closestIn iv E dlo dhi ≠ [] := by
+  unfold closestIn
+  exact pick_ne_nil _ dlo dhi _
+
+theorem shortestGo_ne_nil (iv : Interval) (fuel : Nat) (Es E0 : Int) (h1 : Es - fuel < E0)
+    (h2 : E0 ≤ Es) (hne : (candRange iv E0).1 ≤ (candRange iv E0).2) : shortestGo iv fuel Es ≠ [] := by
+  induction fuel generalizing Es with
+  | zero => simp at h1; omega
+  | succ n ih =>
+    unfold shortestGo
+    simp only []
+    split
+    · intro h
+      exact closestIn_ne_nil _ _ _ _ (List.map_eq_nil_iff.mp h)
+    · rename_i hc
+      have : E0 ≠ Es := fun he => hc (he ▸ hne)
+      exact ih (Es - 1) (by push_cast at h1; omega) (by omega)
+
+/-- if the decimal unit is at most the binary unit and the interval is ≥ 3 units wide, there is a
+candidate -/
+theorem range_nonempty (iv : Interval) (E : Int) (P Q : Nat) (hPQ : scalePQ iv.e2 E = (P, Q))
+    (hP : 0 < P) (hle : P ≤ Q) (hw : iv.lo + 3 ≤ iv.hi) :
+    (candRange iv E).1 ≤ (candRange iv E).2 := by
+  have hq : iv.lo * Q + 3 * Q ≤ iv.hi * Q := by
+    calc iv.lo * Q + 3 * Q = (iv.lo + 3) * Q := by ring
+      _ ≤ iv.hi * Q := Nat.mul_le_mul_right Q hw
+  have key : iv.lo * Q < (iv.lo * Q / P + 1) * P ∧ (iv.lo * Q / P + 1) * P ≤ iv.lo * Q + P := by
+    have d1 := Nat.div_add_mod (iv.lo * Q) P
+    have d2 := Nat.mod_lt (iv.lo * Q) hP
+    have e : (iv.lo * Q / P + 1) * P = P * (iv.lo * Q / P) + P := by ring
+    rw [e]
+    generalize iv.lo * Q / P = c at *
+    generalize iv.lo * Q % P = m at *
+    omega
+  obtain ⟨c1, c2⟩ := candRange_complete iv E P Q hPQ hP (iv.lo * Q / P + 1) (Nat.le_add_left 1 _)
+    (by omega) (by omega) (fun _ => ⟨by omega, by omega⟩)
+  exact le_trans c1 c2
+
+theorem log_bound2_aux (s : ℤ) (hs : s ≤ 200000) :
+    (10 : ℚ) ^ (30103 * s - 200000) ≤ (2 : ℚ) ^ (100000 * s) := by
+  have q1 : (2 : ℚ) ^ 100000 ≤ 10 ^ 30103 := by exact_mod_cast two_pow_le_ten_pow
+  have q2 : (10 : ℚ) ^ 30102 ≤ 2 ^ 100000 := by exact_mod_cast ten_pow_le_two_pow
+  rcases le_or_gt 0 s with h | h
+  · obtain ⟨n, rfl⟩ := Int.eq_ofNat_of_zero_le h
+    calc (10 : ℚ) ^ (30103 * (n : ℤ) - 200000) ≤ (10 : ℚ) ^ ((30102 * n : ℕ) : ℤ) :=
+          zpow_le_zpow_right₀ (by norm_num) (by push_cast; omega)
+      _ = ((10 : ℚ) ^ 30102) ^ n := by rw [← pow_mul, zpow_natCast]
+      _ ≤ ((2 : ℚ) ^ 100000) ^ n := pow_le_pow_left₀ (by positivity) q2 n
+      _ = (2 : ℚ) ^ (100000 * (n : ℤ)) := by
+          rw [← pow_mul]; exact_mod_cast (zpow_natCast (2 : ℚ) (100000 * n)).symm
+  · obtain ⟨a, ha⟩ : ∃ a : ℕ, s = -(a : ℤ) := ⟨(-s).toNat, by omega⟩
+    subst ha
+    calc (10 : ℚ) ^ (30103 * -(a : ℤ) - 200000) ≤ (10 : ℚ) ^ (-((30103 * a : ℕ) : ℤ)) :=
+          zpow_le_zpow_right₀ (by norm_num) (by push_cast; omega)
+      _ = (((10 : ℚ) ^ 30103) ^ a)⁻¹ := by rw [← pow_mul, zpow_neg, zpow_natCast]
+      _ ≤ (((2 : ℚ) ^ 100000) ^ a)⁻¹ :=
+          inv_anti₀ (by positivity) (pow_le_pow_left₀ (by positivity) q1 a)
+      _ = (2 : ℚ) ^ (100000 * -(a : ℤ)) := by
+          rw [← pow_mul, mul_neg, zpow_neg]; exact_mod_cast rfl
+
+/-- `E ≤ 0.30103·s − 2` forces `10^E ≤ 2^s` (for `s ≤ 200000`) -/
+theorem log_bound2 (s E : ℤ) (hs : s ≤ 200000) (h : 100000 * E + 200000 ≤ 30103 * s) :
+    (10 : ℚ) ^ E ≤ (2 : ℚ) ^ s := by
+  by_contra hcon
+  have hlt : (2 : ℚ) ^ s < (10 : ℚ) ^ E := not_le.mp hcon
+  have key : (10 : ℚ) ^ (100000 * E) ≤ (2 : ℚ) ^ (100000 * s) :=
+    le_trans (zpow_le_zpow_right₀ (by norm_num) (by omega)) (log_bound2_aux s hs)
+  have h2 : ((2 : ℚ) ^ s) ^ (100000 : ℕ) < ((10 : ℚ) ^ E) ^ (100000 : ℕ) :=
+    pow_lt_pow_left₀ hlt (by positivity) (by norm_num)
+  rw [← zpow_natCast, ← zpow_natCast, ← zpow_mul, ← zpow_mul] at h2
+  rw [mul_comm (100000 : ℤ) s, mul_comm (100000 : ℤ) E] at key
+  exact absurd key (not_le.mpr (by exact_mod_cast h2))
+
+theorem bitlen_le {n m : Nat} (h : n < 2 ^ m) : bitlen n ≤ m := by
+  unfold bitlen
+  split
+  · omega
+  · rename_i hn
+    have := (Nat.log2_lt hn).mpr h
+    omega
+
+/-- `shortest` returns at least one pair for every finite positive pattern (formats with
+`p ≤ 1000` and at most 100000 exponent values, in particular `f32`, `f64`) -/
+theorem shortest_ne_nil {f : Fmt} (hf : WF f) (hp : f.p ≤ 1000) (hM : f.maxExpField ≤ 100000)
+    {b : Nat} (hb0 : 0 < b) (hb : b < f.infBits) : shortest f b ≠ [] := by
+  rw [shortest_eq]
+  apply shortestGo_ne_nil _ 420 _ (upOf f b - 419) (by push_cast; omega) (by omega)
+  obtain ⟨k, q, hbk, h1, h2, hiv⟩ := interval_eq hf hb
+  have hPQ := scalePQ_eq (interval f b).e2 (upOf f b - 419)
+  obtain ⟨an_pos, ad_pos⟩ := binFrac_pos (interval f b).e2
+  obtain ⟨tn_pos, td_pos⟩ := tenFrac_pos (upOf f b - 419)
+  have hbin := binFrac_Q (interval f b).e2
+  have hten := tenFrac_Q (upOf f b - 419)
+  have he2 : (interval f b).e2 = (k : ℤ) - (L f : ℤ) - 2 := by rw [hiv]
+  have hhi : (interval f b).hi = 4 * q + 2 := by rw [hiv]
+  have hq1 : 1 ≤ q := by
+    by_contra hq
+    have hq0 : q = 0 := by omega
+    have hk0 : k = 0 := by
+      by_contra hk; have := h1 (by omega); have := Nat.two_pow_pos (f.p - 1); omega
+    rw [hq0, hk0] at hbk; omega
+  have hlo : (interval f b).lo + 3 ≤ (interval f b).hi := by
+    rw [hiv]; dsimp only; split <;> omega
+  have hk : k < f.maxExpField := by
+    have hT := Nat.two_pow_pos (f.p - 1)
+    rw [infBits_eq, hbk] at hb
+    by_contra hge
+    have := Nat.mul_le_mul_right (2 ^ (f.p - 1)) (Nat.le_of_not_lt hge)
+    omega
+  have hh : bitlen (interval f b).hi ≤ f.p + 3 := by
+    apply bitlen_le
+    rw [hhi, show f.p + 3 = (f.p - 1) + 4 by have := hf.hp; omega, Nat.pow_add]
+    have := Nat.two_pow_pos (f.p - 1)
+    omega
+  apply range_nonempty _ _ _ _ hPQ (Nat.mul_pos tn_pos ad_pos) _ hlo
+  -- 10^E0 ≤ 2^e2
+  have hlog : (10 : ℚ) ^ (upOf f b - 419) ≤ (2 : ℚ) ^ (interval f b).e2 := by
+    apply log_bound2 _ _ (by rw [he2]; omega)
+    unfold upOf
+    generalize (interval f b).e2 = e2 at *
+    generalize bitlen (interval f b).hi = h at *
+    omega
+  rw [← hten, ← hbin] at hlog
+  generalize (binFrac (interval f b).e2).1 = an at *
+  generalize (binFrac (interval f b).e2).2 = ad at *
+  generalize (tenFrac (upOf f b - 419)).1 = tn at *
+  generalize (tenFrac (upOf f b - 419)).2 = td at *
+  rw [div_le_div_iff₀ (by exact_mod_cast td_pos) (by exact_mod_cast ad_pos)] at hlog
+  exact_mod_cast hlog
+
 end LexVerif.Proof.RoundNE
